@@ -180,6 +180,29 @@ def run(ctx, env):
     lay = layout.Layouts(prog, an)
     for ver in sorted(c03.STRUCTS):
         c03.fixed_count_rule(ctx, prog, an, lay, ver, "R2.9")
+    # R2.11: the one silent stop has one cause
+    ctx.rule("R2.11", "the list may end before the end of the buffer without an Error only at a version word outside the allowed set: NetflowParseError::UnallowedVersion (the only error parse_bytes drops, R2.3) is built solely on the false edge of the one `allowed_versions.contains(&version)` test on the parsed version word, and carries that version (shared with C12 R12.1 / R12.3)")
+    from . import c12 as _c12
+    saved = ctx.obls
+    ctx.obls = []
+    saved_rules, saved_an, saved_notes = dict(ctx.rule_text), dict(ctx.analysed), list(ctx.notes)
+    try:
+        _c12.run(ctx, env)
+    finally:
+        sub = ctx.obls
+        ctx.obls = saved
+        ctx.rule_text.clear()
+        ctx.rule_text.update(saved_rules)
+        ctx.analysed.clear()
+        ctx.analysed.update(saved_an)
+        ctx.notes[:] = saved_notes
+    keep = ("single-gate", "gate-key-is-parsed-version", "false-edge-returns-UnallowedVersion(version)", "UnallowedVersion-origin", "floor:UnallowedVersion construction sites")
+    n211 = 0
+    for o in sub:
+        if o["detail"] in keep:
+            n211 += 1
+            ctx.ob("R2.11", o["func"], o["detail"], o["status"] == "discharged", o["reason"], o["site"])
+    ctx.floor("R2.11", "crate", "gate / UnallowedVersion-origin obligations", n211, 4)
     body = entry_body(ctx, prog, "R2.1")
     if body is None:
         return
